@@ -5,6 +5,7 @@
 (*  [ev: "common", chain, ids, res]  getHighestCommonBlock on a real node  *)
 (*  [ev: "blocks", chain, id, res]   getBlocksFromId                       *)
 (*  [ev: "offer", f: features, outcome, finBefore, finAfter, finalIdsSame] *)
+(*  [ev: "offer2", outcome]  two honest peers, best chain on the other one *)
 (***************************************************************************)
 EXTENDS Sync, Json
 
@@ -26,6 +27,9 @@ TNext ==
                                              child |-> Ev.f.child = 1]), "sync-outcome", Ev.outcome)
             /\ Check(Ev.finAfter >= Ev.finBefore, "finalized-height-decreased", ToJson(<<Ev.finBefore, Ev.finAfter>>))
             /\ Check(Ev.finalIdsSame = 1, "finalized-block-replaced", "ids")
+       \* two honest peers, the better chain on the one that did NOT send the triggering block: the node fetches from the
+       \* peer it selected as best and ends on that chain
+       [] Ev.ev = "offer2" -> Check(Ev.outcome = "best", "sync-outcome-two-peers", Ev.outcome)
   /\ l' = l + 1 /\ UNCHANGED x
 TSpec == TInit /\ [][TNext]_<<l, x>>
 =============================================================================
